@@ -49,6 +49,24 @@ CHECKS = {
         "components": COMPONENTS,
         "assumptions": ["copying or serialising a secret nonce (documented misuse) is out of scope", "callbacks return (no longjmp out of the illegal callback)"],
     },
+    "C15": {
+        "worlds": [{"name": "aex", "variants": {"quick": ["ship", "asan"], "thorough": ["ship", "asan", "alt"]},
+                    "runs": {"quick": 8000, "thorough": 400000}, "secondary_share": 0.1}],
+        "rule": "one run = one seeded Plan: 1..6 anti-exfil protocol runs host<->device (message classes incl. >= n, repeated host randomness), faults attached to logical "
+                "messages, host/device crashes, device context events; non-trivial = a fault fired and a provenance/model comparison happened after it; distinct = distinct Plan hash",
+        "components": COMPONENTS,
+        "assumptions": ["the sign-to-contract nonce derivation is library specific and not recomputed by the model: oracles are provenance based (what the device actually produced for which inputs), "
+                        "plus ECDSA validity in the reference model and nonce-uniqueness with key extraction"],
+    },
+    "C17": {
+        "worlds": [{"name": "halfagg", "variants": {"quick": ["ship", "asan"], "thorough": ["ship", "asan", "alt"]},
+                    "runs": {"quick": 8000, "thorough": 400000}, "secondary_share": 0.1}],
+        "rule": "one run = one seeded Plan: 0..64 signed triples, a delivery schedule that determines the batch split of incremental aggregation, per-step buffer capacities, "
+                "empty batches, aggregator crashes (resume from persisted bytes), faults on triples / final aggregate / (key,msg) list; non-trivial = a fault fired and a comparison with the "
+                "half-aggregation model happened after it; distinct = distinct Plan hash",
+        "components": COMPONENTS,
+        "assumptions": ["the reference model implements the half-aggregation draft equation; s >= n rejection cannot be exercised by any constructible input on the real group (see property text)"],
+    },
     "C20": {
         "worlds": [
             {"name": "ctx", "variants": {"quick": ["cov", "ship"], "thorough": ["cov", "ship", "alt", "asan"]},
